@@ -82,6 +82,8 @@ def validate(frame):
     if "arp" not in d:
       bad.append("arp.truncated")
     return bad
+  if d.get("ethertype") == ETH_IPV6 and "llc" not in d:
+    return bad + validate6(frame)
   if d.get("ethertype") != F.ETH_IP:
     return bad
   ip = d.get("ipv4")
@@ -93,8 +95,8 @@ def validate(frame):
   if ip["total_len"] < ip["hlen"]:
     bad.append("ipv4.total_len")
     return bad
-  if ip["total_len"] != room:
-    bad.append("ipv4.total_len")
+  if ip["total_len"] > room:
+    bad.append("ipv4.total_len")          # (less than the room: a link-layer trailer follows the datagram)
   whole = (not ip["mf"]) and ip["frag"] == 0
   seglen = ip["total_len"] - ip["hlen"]
   if ip["frag"] != 0:
@@ -205,3 +207,93 @@ def first_difference(expected, actual):
 def byte_distance(a, b):
   n = min(len(a), len(b))
   return sum(1 for i in range(n) if a[i] != b[i]) + abs(len(a) - len(b))
+
+
+# --------------------------------------------------------------------------- IPv6 (RFC 8200), just enough for C12
+
+ETH_IPV6 = 0x86dd
+
+
+def build_ipv6(src, dst, next_header, payload, tc=0, flow=0, hlim=64):
+  """src, dst: 16 raw bytes.  No extension headers."""
+  return (struct.pack("!LHBB", (6 << 28) | ((tc & 0xff) << 20) | (flow & 0xfffff), len(payload), next_header & 0xff, hlim & 0xff)
+          + bytes(src) + bytes(dst) + bytes(payload))
+
+
+def pseudo_header6(src, dst, next_header, length):
+  return bytes(src) + bytes(dst) + struct.pack("!LBBBB", length, 0, 0, 0, next_header & 0xff)
+
+
+def l4_checksum6(src, dst, next_header, segment):
+  return F.checksum(pseudo_header6(src, dst, next_header, len(segment)) + bytes(segment))
+
+
+def build_udp6(src, dst, sport, dport, payload=b""):
+  seg = struct.pack("!HHHH", sport & 0xffff, dport & 0xffff, 8 + len(payload), 0) + bytes(payload)
+  c = l4_checksum6(src, dst, 17, seg) or 0xffff
+  return seg[:6] + struct.pack("!H", c) + seg[8:]
+
+
+def build_tcp6(src, dst, sport, dport, payload=b"", seq=0, ack=0, flags=0x02, window=8192):
+  seg = struct.pack("!HHLLHHHH", sport & 0xffff, dport & 0xffff, seq, ack, (5 << 12) | (flags & 0x1ff), window, 0, 0) + bytes(payload)
+  c = l4_checksum6(src, dst, 6, seg)
+  return seg[:16] + struct.pack("!H", c) + seg[18:]
+
+
+def build_icmp6_echo(src, dst, ident, seq, payload=b"", reply=False):
+  seg = struct.pack("!BBHHH", 129 if reply else 128, 0, 0, ident & 0xffff, seq & 0xffff) + bytes(payload)
+  c = l4_checksum6(src, dst, 58, seg)
+  return seg[:2] + struct.pack("!H", c) + seg[4:]
+
+
+def dissect6(frame):
+  """None unless `frame` is Ethernet II (0..2 802.1Q tags) carrying an IPv6 header; else
+  {"off", "payload_len", "next", "src", "dst", "l4_off", "room", "trailer", "l4_checksum_ok" (None when not TCP/UDP/ICMPv6)}"""
+  d = F.dissect(frame)
+  if d.get("ethertype") != ETH_IPV6 or "llc" in d:
+    return None
+  off = d["l3_off"]
+  if len(frame) < off + 40 or frame[off] >> 4 != 6:
+    return None
+  plen, nh = struct.unpack_from("!HB", frame, off + 4)
+  src, dst = frame[off + 8:off + 24], frame[off + 24:off + 40]
+  room = len(frame) - off - 40
+  r = {"off": off, "payload_len": plen, "next": nh, "src": src, "dst": dst, "l4_off": off + 40, "room": room,
+       "trailer": max(0, room - plen), "l4_checksum_ok": None}
+  if plen <= room and nh in (6, 17, 58):
+    seg = frame[off + 40:off + 40 + plen]
+    if nh == 17 and len(seg) >= 8 and seg[6:8] == b"\0\0":
+      r["l4_checksum_ok"] = False          # a zero UDP checksum is illegal over IPv6
+    else:
+      r["l4_checksum_ok"] = F.ones_sum(pseudo_header6(src, dst, nh, len(seg)) + seg) == 0xffff
+  return r
+
+
+def validate6(frame):
+  r = dissect6(frame)
+  if r is None:
+    return ["ipv6.header"]
+  bad = []
+  if r["payload_len"] > r["room"]:
+    bad.append("ipv6.payload_len")
+  if r["l4_checksum_ok"] is False:
+    bad.append("ipv6.l4-checksum")
+  return bad
+
+
+# --------------------------------------------------------------------------- checksum boundary values
+
+def solve_checksum_word(segment, pseudo, word_off, csum_off, udp):
+  """`segment` (TCP or UDP, any checksum) with the 16-bit word at `word_off` chosen so that the Internet checksum over
+  pseudo header + segment COMPUTES to 0x0000, and with the checksum field written as the protocol wants it then:
+  0xffff for UDP (RFC 768: an all-zero computed checksum is transmitted as all ones), 0x0000 for TCP (RFC 793)."""
+  b = bytearray(segment)
+  b[csum_off:csum_off + 2] = b"\0\0"
+  b[word_off:word_off + 2] = b"\0\0"
+  s = F.ones_sum(bytes(pseudo) + bytes(b))
+  b[word_off:word_off + 2] = struct.pack("!H", 0xffff - s)
+  if F.checksum(bytes(pseudo) + bytes(b)) != 0:
+    raise ValueError("could not reach the boundary")
+  if udp:
+    b[csum_off:csum_off + 2] = b"\xff\xff"
+  return bytes(b)
